@@ -106,7 +106,11 @@ class Pending:
             "PYTHONHASHSEED": "0", "OMP_NUM_THREADS": "1", "MKL_NUM_THREADS": "1",
             "PYTHONDONTWRITEBYTECODE": "1",
         })
-        code = "from pydrobert.torch.command_line import %s as X; raise SystemExit(X())" % cmd.name
+        # the interpreter asks to be killed when the shard that started it dies (watchdog kill of the shard),
+        # so that no command outlives its check; then runs the entry point as the console script would
+        code = ("import ctypes, os, signal; ctypes.CDLL(None).prctl(1, signal.SIGKILL); "
+                "os.getppid() == %d or os._exit(97); "
+                "from pydrobert.torch.command_line import %s as X; raise SystemExit(X())" % (os.getpid(), cmd.name))
         self.t0 = time.time()
         self.fso, self.fse = open(self.so, "w"), open(self.se, "w")
         self.proc = subprocess.Popen(
@@ -210,6 +214,43 @@ def drive_variants(make_gen, variants, target, mon, scratch_of, timeout, on_resu
                 except Exception:
                     pass
     return outs
+
+
+class Slots:
+    """At most `k` multi-worker cases at a time over all shards of one run (file locks in the run's own
+    scratch directory, i.e. the directory of the shard's --out file, which the runner removes)."""
+
+    def __init__(self, k):
+        self.k, self.fd = k, None
+        self.dir = None
+        a = sys.argv
+        for i, x in enumerate(a):
+            if x == "--out" and i + 1 < len(a):
+                self.dir = os.path.dirname(os.path.abspath(a[i + 1]))
+
+    def __enter__(self):
+        import fcntl
+
+        if self.dir is None or not os.path.isdir(self.dir):
+            return self
+        t0 = time.time()
+        while True:
+            for j in range(self.k):
+                fd = os.open(os.path.join(self.dir, "c17-slot%d.lock" % j), os.O_CREAT | os.O_RDWR, 0o644)
+                try:
+                    fcntl.flock(fd, fcntl.LOCK_EX | fcntl.LOCK_NB)
+                    self.fd = fd
+                    self.waited = time.time() - t0
+                    return self
+                except OSError:
+                    os.close(fd)
+            time.sleep(0.2)
+
+    def __exit__(self, *exc):
+        if self.fd is not None:
+            os.close(self.fd)  # releases the lock
+            self.fd = None
+        return False
 
 
 # ---------------------------------------------------------------------------- snapshots
